@@ -2,7 +2,7 @@
    Own legs: default-initialised objects (C02/Model.v).  The component theorems are collected in
    Properties_containers.v, Properties_strings.v, Properties_algorithms.v, Properties_arith.v, Properties_wrappers.v. *)
 From Tetl Require Import Lib.Base C02.Model.
-From Tetl Require C08.Model C08.Core C02.ModelFp C02.ProofsFp.
+From Tetl Require C08.Model C08.Core C02.ModelFp C02.ProofsFp C02.ModelFf C02.ProofsFf.
 Local Open Scope Z_scope.
 
 (* every modelled object kind except inplace_vector reads only initialised members after default-initialisation
@@ -39,6 +39,27 @@ Theorem C02_to_floating_point_prefix_refuted :
   C08.Core.view_ok v /\ C02.ModelFp.tfp_scan_prefix v = UB OutOfBounds /\ C02.ModelFp.tfp_scan v = Ok (0, 2).
 Proof. exact C02.ProofsFp.tfp_prefix_reads_past_view. Qed.
 Print Assumptions C02_to_floating_point_prefix_refuted.
+
+(* from_floating_point(val, span<char> out, precision), as repaired by ac8c962: for EVERY span length (0, too small,
+   exact fit, larger), every non-negative integer part and fraction part below 2^63 (the float -> integer conversions
+   are outside the model) and every precision >= 0, every store stays inside the span (the model's stores are checked:
+   UB OutOfBounds outside the span); overflow is reported, with the span untouched, exactly when text + terminator do
+   not fit *)
+Theorem C02_from_floating_point_writes_inside : forall whole part precision buf, 0 <= whole -> 0 <= part -> 0 <= precision ->
+  exists b err e, C02.ModelFf.ffp_m whole part precision buf = Ok (b, err, e) /\ length b = length buf /\
+    match C02.ModelFf.ffp_text whole part precision with
+    | Some txt => err = (if (length txt + 1 <=? length buf)%nat then 0 else 1) /\ (err = 1 -> b = buf)
+    | None => False
+    end.
+Proof. exact C02.ProofsFf.ffp_never_out_of_span. Qed.
+Print Assumptions C02_from_floating_point_writes_inside.
+
+(* the function as it was before the fix never looked at out.size(): 233.007, precision 3, span of one character *)
+Theorem C02_from_floating_point_prefix_refuted :
+  C02.ModelFf.ffp_prefix 233 7 3 [120] = UB OutOfBounds /\ C02.ModelFf.ffp_m 233 7 3 [120] = Ok ([120], 1, Some 0)
+  /\ C02.ModelFf.ffp_m 233 7 3 [1; 1; 1; 1; 1; 1; 1; 1] = Ok ([50; 51; 51; 46; 48; 48; 55; 0], 0, Some 3).
+Proof. exact C02.ProofsFf.ffp_prefix_writes_past_span. Qed.
+Print Assumptions C02_from_floating_point_prefix_refuted.
 
 Example C02_nonvacuous :
   length all_objs = 23%nat /\ In Variant all_objs /\ Variant <> InplaceVectorTrivial /\ Variant <> InplaceVectorNonTrivial /\
